@@ -12,6 +12,22 @@ func init() {
 	gens["C08"] = genC08
 }
 
+// positions: @ marks where an expression is expected, # where a statement is expected
+var exprBases = []string{
+	"x = @\n", "x = [1, @, 3]\n", "x = {\"k\": @}\n", "x = {\"k\": [1, {\"j\": @}]}\n", "x = (1 + @) * 2\n", "x = -@\n", "x = !@\n",
+	"x = 1 < @\n", "x = @ && true\n", "x = true || @\n", "x = @ in [1]\n", "x = 1 in @\n",
+	"l = [1]\nx = l[@]\n", "l = [[1]]\nx = l[0][@]\n", "l = [1]\nl[@] = 2\n", "l = [1]\nl[0] = @\n", "l = [1]\nl[0] += @\n",
+	"l = [1]\nx = l[@:]\n", "l = [1]\nx = l[:@]\n", "l = [1]\nx = l[::@]\n", "l = [1]\nx = l[1:@:2]\n", "l = [1]\nx = l[@:2:1]\n", "l = [1]\nx = l[1:2:@]\n", "l = [1]\nx = l[:@:]\n", "l = [1]\nx = l[@::]\n",
+	"l = [1]\na, l[@] = 1, 2\n", "l = [1]\na, l[@] = pr(1)\n", "a, b = 1, @\n", "x = len(@)\n", "add_key(k, @)\n", "x = pr(1, @)\n", "x = pr(len(@))\n", "p(a = @)\n", "x += @\n", "x = (@)\n",
+	"if @ {\n  p(1)\n}\n", "if true {\n  p(1)\n} elif @ {\n  p(2)\n}\n", "if true {\n  x = @\n} else {\n  p(2)\n}\n", "if false {\n  p(1)\n} else {\n  x = @\n}\n",
+	"for i = @; i < 2; i = i + 1 {\n  p(i)\n}\n", "for i = 0; @; i = i + 1 {\n  break\n}\n", "for i = 0; i < 2; i = @ {\n  p(i)\n}\n", "for i = 0; i < 2; i = i + 1 {\n  x = @\n}\n",
+	"for x in @ {\n  p(x)\n}\n", "for x in [1] {\n  y = @\n}\n", "for x in [1] {\n  for y in [@] {\n    p(y)\n  }\n}\n",
+	"#\n", "if true {\n  #\n}\n", "if false {\n} else {\n  #\n}\n", "for x in [1] {\n  p(x)\n}\n#\n", "for x in [1] {\n  if true {\n    #\n  }\n}\n",
+	"for x in [1] {\n  if true {\n    break\n  }\n  #\n}\n", "for i = 0; i < 2; i = i + 1 {\n  if i == 1 {\n    continue\n  }\n  x = @\n}\n", "for x in [1] {\n  break\n  #\n}\n",
+	"for x in [1] {\n  for y in [2] {\n    break\n  }\n  #\n}\n", "for x in [1] {\n  if false {\n  } else {\n    continue\n  }\n  y = [@]\n}\n", "for x in [1] {\n  if x == 2 {\n    break\n  }\n}\nx = @\n",
+	"for i = 0; i < 1; i = i + 1 {\n  #\n}\n", "for i = 0; i < 1; i = i + 1 {\n}\n#\n", "for x in [1] {\n  for y in [2] {\n  }\n  #\n}\n", "if true {\n  for x in [1] {\n  }\n  #\n}\n",
+}
+
 func emitLoad(e *emitter, lc loadCase, gen, key string) {
 	out := loadV1(lc)
 	out["gen"] = gen
@@ -129,6 +145,11 @@ func genC09(e *emitter, tier string, seed int64) {
 		"x = [1, @]\n", "p(@)\n", "p(a = @)\n", "x = {\"k\": @}\n", "if @ {\n  p(1)\n}\n", "for x in [1] {\n  if true {\n    break\n  }\n  y = [@]\n}\n",
 		"p(1)\n\n  @\n@\n", "for x in [1] {\n  if true {\n    continue\n  }\n  @\n  @\n}\n",
 	}
+	for _, b := range exprBases {
+		if strings.Contains(b, "@") {
+			ctxs = append(ctxs, b)
+		}
+	}
 	for ci, c := range ctxs {
 		for _, t := range []string{"b.p", "x.p", "a.p", "c.p"} {
 			ss := []scriptSrc{{"a.p", strings.ReplaceAll(c, "@", fmt.Sprintf("use(%q)", t))}, {"b.p", "p(1)\n"}, {"c.p", "p(2)\nuse(\"a.p\")\n"}}
@@ -156,20 +177,7 @@ func genC09(e *emitter, tier string, seed int64) {
 func genC08(e *emitter, tier string, seed int64) {
 	rng := rand.New(rand.NewSource(seed))
 	// positions: @ marks where an expression is expected, # where a statement is expected
-	bases := []string{
-		"x = @\n", "x = [1, @, 3]\n", "x = {\"k\": @}\n", "x = {\"k\": [1, {\"j\": @}]}\n", "x = (1 + @) * 2\n", "x = -@\n", "x = !@\n",
-		"x = 1 < @\n", "x = @ && true\n", "x = true || @\n", "x = @ in [1]\n", "x = 1 in @\n",
-		"l = [1]\nx = l[@]\n", "l = [[1]]\nx = l[0][@]\n", "l = [1]\nl[@] = 2\n", "l = [1]\nl[0] = @\n", "l = [1]\nl[0] += @\n",
-		"l = [1]\nx = l[@:]\n", "l = [1]\nx = l[:@]\n", "l = [1]\nx = l[::@]\n", "l = [1]\nx = l[1:@:2]\n", "l = [1]\nx = l[@:2:1]\n", "l = [1]\nx = l[1:2:@]\n", "l = [1]\nx = l[:@:]\n", "l = [1]\nx = l[@::]\n",
-		"l = [1]\na, l[@] = 1, 2\n", "l = [1]\na, l[@] = pr(1)\n", "a, b = 1, @\n", "x = len(@)\n", "add_key(k, @)\n", "x = pr(1, @)\n", "x = pr(len(@))\n", "p(a = @)\n", "x += @\n", "x = (@)\n",
-		"if @ {\n  p(1)\n}\n", "if true {\n  p(1)\n} elif @ {\n  p(2)\n}\n", "if true {\n  x = @\n} else {\n  p(2)\n}\n", "if false {\n  p(1)\n} else {\n  x = @\n}\n",
-		"for i = @; i < 2; i = i + 1 {\n  p(i)\n}\n", "for i = 0; @; i = i + 1 {\n  break\n}\n", "for i = 0; i < 2; i = @ {\n  p(i)\n}\n", "for i = 0; i < 2; i = i + 1 {\n  x = @\n}\n",
-		"for x in @ {\n  p(x)\n}\n", "for x in [1] {\n  y = @\n}\n", "for x in [1] {\n  for y in [@] {\n    p(y)\n  }\n}\n",
-		"#\n", "if true {\n  #\n}\n", "if false {\n} else {\n  #\n}\n", "for x in [1] {\n  p(x)\n}\n#\n", "for x in [1] {\n  if true {\n    #\n  }\n}\n",
-		"for x in [1] {\n  if true {\n    break\n  }\n  #\n}\n", "for i = 0; i < 2; i = i + 1 {\n  if i == 1 {\n    continue\n  }\n  x = @\n}\n", "for x in [1] {\n  break\n  #\n}\n",
-		"for x in [1] {\n  for y in [2] {\n    break\n  }\n  #\n}\n", "for x in [1] {\n  if false {\n  } else {\n    continue\n  }\n  y = [@]\n}\n", "for x in [1] {\n  if x == 2 {\n    break\n  }\n}\nx = @\n",
-		"for i = 0; i < 1; i = i + 1 {\n  #\n}\n", "for i = 0; i < 1; i = i + 1 {\n}\n#\n", "for x in [1] {\n  for y in [2] {\n  }\n  #\n}\n", "if true {\n  for x in [1] {\n  }\n  #\n}\n",
-	}
+	bases := exprBases
 	// offenders (expressions) and statement offenders
 	exprOff := []string{
 		"1", "nosuch()", "nosuch(1, 2)", "len()", "len(1, 2)", "get_key()", "get_key(1)", "get_key(k, k)", "add_key()", "add_key(1, 2)", "add_key(k, 1, 2)",
@@ -219,6 +227,28 @@ func genC08(e *emitter, tier string, seed int64) {
 			src := []string{"@\n", "x = [@]\n", "if true {\n  @\n}\n", "for i = 0; i < 1; i = i + 1 {\n  if i == 0 {\n    continue\n  }\n  @\n}\n"}[rng.Intn(4)]
 			emitLoad(e, loadCase{Scripts: []scriptSrc{{"a.p", strings.Replace(src, "@", callSrc, 1)}}, Order: []string{"a.p"}}, "builtin-arg-shapes", callSrc)
 		}
+	}
+	// long valid scripts (hundreds of statements of every kind, flat): length alone never rejects a script
+	for _, n := range []int{100, 600, 1500} {
+		var sb strings.Builder
+		for i := 0; i < n; i++ {
+			switch i % 6 {
+			case 0:
+				fmt.Fprintf(&sb, "x%d = [1, {\"k\": len(\"ab\")}]\n", i%7)
+			case 1:
+				sb.WriteString("if k == 1 {\n  p(1)\n} elif k {\n} else {\n  add_key(k, 2)\n}\n")
+			case 2:
+				sb.WriteString("for x in [1, 2] {\n  if x == 1 {\n    continue\n  }\n  p(x)\n}\n")
+			case 3:
+				sb.WriteString("for i = 0; i < 2; i = i + 1 {\n  break\n}\n")
+			case 4:
+				sb.WriteString("p(len([1, 2][0:1]), -1 + 2 * 3, \"a\" in [\"a\"])\n")
+			default:
+				sb.WriteString("add_key(k, uppercase(k))\n")
+			}
+		}
+		emitLoad(e, loadCase{Scripts: []scriptSrc{{"a.p", sb.String()}}, Order: []string{"a.p"}}, "long-valid", fmt.Sprintf("%d statements", n))
+		emitLoad(e, loadCase{Scripts: []scriptSrc{{"a.p", sb.String() + "break\n"}}, Order: []string{"a.p"}}, "long-valid", fmt.Sprintf("%d statements then a stray break", n))
 	}
 	// asymmetric function tables: a name known to the checker table only, or to the call table only
 	for _, src := range []string{"drop_key(k)\n", "x = [len(\"a\")]\nif true {\n  drop_key(k)\n}\n", "p(1)\nuppercase(k)\n", "add_key(k, len(\"ab\"))\n"} {
